@@ -1237,6 +1237,7 @@ def history_facts(hops, results, skip=0):
     (ok / nil / noview / noreport / PANIC) are kept verbatim.  Returns (facts, keyed) where keyed maps a
     cross-history key (ver, root level, view level, vector, op) to the result, for objects decoded exactly once."""
     slots = []      # (ver, level, root)
+    rootslot = set()  # indices of the slots created by a constructor (not views)
     roots = {}      # root -> [epoch, ndecodes, last vector or None, root level]
     first = {}
     facts = []
@@ -1249,6 +1250,7 @@ def history_facts(hops, results, skip=0):
             if k == "N":
                 root = len(roots)
                 roots[root] = [0, 0, None, op[2:]]
+                rootslot.add(len(slots))
                 slots.append((op[1], op[2:], root))
                 fact = res
             elif k == "D":
@@ -1285,9 +1287,12 @@ def history_facts(hops, results, skip=0):
                     if res in STRUCT:
                         fact = res
                     else:
-                        key = (k, op.split(",", 1)[1] if "," in op else "", lvl, root, st[0])
+                        # the same slot (the same chain of accessors), not merely the same object and level: whether two
+                        # different views of one object agree is C14's statement
+                        key = (k, op.split(",", 1)[1] if "," in op else "", int(idx), st[0])
                         fact = ("same-as-first", first.setdefault(key, res) == res)
-                        if st[2] is not None:
+                        if st[2] is not None and int(idx) in rootslot:
+                            # (the object's own slot only: what its views answer is compared with it by C14)
                             keyed.append(((ver, st[3], lvl, st[2], k + (op.split(",", 1)[1] if "," in op else "")), res))
             else:
                 fact = res
@@ -1389,8 +1394,7 @@ class HistoryProp(SimpleProp):
                 msgs.append(("history returned %d results for %d operations" % (len(g), len(h)), ops[k]))
                 continue
             nslots = sum(1 for o in h if o[0] in "NV")
-            if any(x == "PANIC" for x in g):
-                msgs.append(("an operation of the history panicked", ops[k]))
+            # (a panic inside a history is C12's statement; here it only shows up as a fact that differs from the model's)
             # final dumps equal the twin's
             if g[len(g) - nslots:] != tg[len(tg) - nslots:]:
                 for i in range(nslots):
@@ -1519,8 +1523,8 @@ class ConcProp:
                     out.mismatches += 1
                     if len(out.mismatch_examples) < 5:
                         out.mismatch_examples.append({"stream": "conc", "op": mops[g][:3000], "impl": s[:1500], "model": m[:1500]})
-                if "PANIC" in c:
-                    out.violations.append(("H " + hs[g], "an operation panicked in goroutine %d" % g, c[:1500], ""))
+                if "PANIC" in c and "PANIC" not in s:
+                    out.violations.append(("H " + hs[g], "an operation panicked in goroutine %d when run concurrently, not when run sequentially" % g, c[:1500], ""))
             if r == 0:
                 out.samples.append({"shared_setup": ";".join(shared)[:400], "goroutine_0": hs[0][:600], "result": lines[0][:300]})
         out.evaluations = total
